@@ -74,4 +74,5 @@ pub fn run(ctx: &Ctx) {
     ctx.set_extra("digests_ge_n_where_signature_differs_from_rfc6979_of_reduced_digest(recorded,not required)", json!(ge_n_differs.load(Ordering::Relaxed)));
     ctx.guard_check("both parities observed", par0.load(Ordering::Relaxed) > 0 && par1.load(Ordering::Relaxed) > 0, format!("parity 0: {}, parity 1: {}", par0.load(Ordering::Relaxed), par1.load(Ordering::Relaxed)));
     ctx.guard_check("low-s flip exercised", flips.load(Ordering::Relaxed) > 0, format!("{} cases had a raw s above n/2", flips.load(Ordering::Relaxed)));
+    crate::hist::long_runs(ctx, P, "signing-long-runs", "PrivateKey::sign, a long run on one fresh thread", if ctx.quick() { 40 } else { 300 }, crate::hist::c05_nth());
 }
